@@ -35,6 +35,18 @@ def spec(line, out):
     d = {}
     for o, r in zip(ops, res):
         r = int(r)
+        if o[0] == "X":
+            # allocator refuses during this call: a refused resize reports -1, a refused insert returns not-found (0) and stores nothing
+            o = o[1:]
+            if o[0] == "i":
+                k, ref = o[1:].split(":"); k = int(k); ref = int(ref)
+                if r == ref:
+                    if k != 0: d[k] = ref
+                elif r != 0: return "insert under allocation failure returned %d (neither the reference nor not-found)" % r
+                continue
+            if o[0] == "r":
+                if r not in (0, -1): return "resize under allocation failure returned %d" % r
+                continue
         if o[0] == "i":
             k, ref = o[1:].split(":"); k = int(k); ref = int(ref)
             if r != ref: return "insert did not return the reference"
@@ -67,14 +79,16 @@ def gen(ctx):
         pool += [0]
         nops = r.choice([5, 20, 60, 200]) if ctx.quick() else r.choice([5, 20, 60, 200, 1000, 3000])
         ops = []
+        faulty = s % 3 == 0      # every third history runs with an allocator that refuses now and then (always for whole calls)
         for _ in range(nops):
             c = r.random()
+            x = "X" if faulty and r.random() < 0.25 else ""
             if c < 0.45:
-                ops.append("i%d:%d" % (r.choice(pool), r.choice([0, 1, -1, 2**31 - 1, -2**31, r.randint(-10**6, 10**6)])))
+                ops.append(x + "i%d:%d" % (r.choice(pool), r.choice([1, -1, 2**31 - 1, -2**31, r.randint(1, 10**6)]) if x else r.choice([0, 1, -1, 2**31 - 1, -2**31, r.randint(-10**6, 10**6)])))
             elif c < 0.85:
                 ops.append("f%d" % (r.choice(pool) if r.random() < 0.8 else r.randint(1, 2**48)))
             elif c < 0.93:
-                ops.append("r%d" % r.choice([0, 1, 5, 6, 11, 12, 100, 1000, len(pool) * 2]))
+                ops.append(x + "r%d" % r.choice([0, 1, 5, 6, 11, 12, 100, 1000, len(pool) * 2]))
             elif c < 0.98:
                 ops.append("R")
             else:
@@ -86,15 +100,44 @@ def gen(ctx):
         ops = ["i%d:%d" % (k, i + 1) for i, k in enumerate(keys)] + ["f%d" % k for k in r.sample(keys, min(nk, 3000))] + \
               ["f%d" % r.randint(1, 2**44) for _ in range(200)]
         L.append("refmap " + ",".join(ops))
+    # a refused growth step at every table size, followed by finds, a reset and reuse of the same keys
+    for grow in (6, 12, 23, 45):
+        ks = [8 * (i + 1) for i in range(grow + 3)]
+        pre = ["i%d:%d" % (k, i + 1) for i, k in enumerate(ks[:grow - 1])]
+        L.append("refmap " + ",".join(pre + ["Xi%d:%d" % (ks[grow - 1], grow)] + ["f%d" % k for k in ks] + ["R"] + ["f%d" % k for k in ks[:3]] +
+                                     ["i%d:%d" % (k, 100 + i) for i, k in enumerate(ks)] + ["f%d" % k for k in ks] + ["Xr1000", "f8", "r0", "f16"]))
     L += ["refmap _", "refmap f5", "refmap R,C,f1", "refmap i0:5,f0", "refmap r0,f1,i1:0,f1,i1:3,f1"]
     return L
+
+
+def build_h(ctx):
+    return build_harness(ctx, "h_refmap", [os.path.join(VERIF, "harness/h_refmap.c"), os.path.join(REPO, "src/runtime/refmap.c")],
+                         defs=["-DFLATCC_CALLOC(nm,n)=h_calloc(nm,n)", "-DFLATCC_FREE(p)=h_free(p)", "-DNDEBUG", "-include", os.path.join(VERIF, "harness/h_allocs.h")])
+
+
+def fault_stage(ctx):
+    """C13: the histories with allocator refusals only (every third one + the directed ones). Returns (n, failure-or-None, kind)"""
+    h = build_h(ctx)
+    lines = [l for l in gen(ctx) if ",X" in l or " X" in l]
+    rc_c, out_c, err_c = run_parallel(h, lines, 16, timeout=1800)
+    rc_m, out_m, err_m = run_parallel(FMODEL, lines, 16, timeout=3000)
+    idx, a, b = diff_streams(lines, out_c, out_m)
+    sf = [(i, w) for i, w in ((i, spec(l, a[i])) for i, l in enumerate(lines)) if w]
+    nref = sum(l.count("X") for l in lines)
+    if sf:
+        i, why = min(sf, key=lambda t: len(lines[t[0]]))
+        return len(lines), nref, {"kind": "property-fails-on-implementation", "op": lines[i][:20000], "c_output": a[i][:5000], "model_output": b[i][:5000], "why": "reference map under allocation failure: " + why}, False
+    if idx:
+        i = min(idx, key=lambda k: len(lines[k]))
+        return len(lines), nref, {"kind": "correspondence-broken", "op": lines[i][:20000], "c_output": a[i][:5000], "model_output": b[i][:5000]}, True
+    return len(lines), nref, None, False
 
 
 def run(ctx):
     ths = proof_stage(ctx)
     if ths is None:
         finish(ctx, [])
-    h = build_harness(ctx, "h_refmap", [os.path.join(VERIF, "harness/h_refmap.c"), os.path.join(REPO, "src/runtime/refmap.c")])
+    h = build_h(ctx)
     lines = gen(ctx)
     rc_c, out_c, err_c = run_parallel(h, lines, 16, timeout=1800)
     rc_m, out_m, err_m = run_parallel(FMODEL, lines, 16, timeout=3000)
